@@ -17,7 +17,7 @@ pub enum WCall {
     Other(usize),
     /// finalize()
     Fin,
-    /// finalize(); if it returns Err, finalize() again immediately
+    /// finalize(); while it returns Err, finalize() again immediately (at most 3 more times)
     FinRetry,
 }
 
@@ -189,11 +189,15 @@ pub fn run_writer(world: &WorldRef, prog: &WProg) -> WRun {
             let w = world.borrow();
             run.marks.last_mut().unwrap().snap = Some((w.data(SHP).to_vec(), w.data(SHX).to_vec()));
         }
-        if let (WCall::FinRetry, false, false) = (call, ok, panicked) {
+        let mut attempts_left = if let (WCall::FinRetry, false, false) = (call, ok, panicked) { 3 } else { 0 };
+        while attempts_left > 0 {
+            attempts_left -= 1;
             let first = evs(world);
             let off0 = offered();
             let r = guarded(|| writer.finalize());
             let res = res_of(r);
+            let retry_ok = res.is_ok();
+            let retry_panicked = matches!(res, CallRes::Panic(..));
             run.marks.push(Mark {
                 call: "finalize".into(),
                 call_no: ci,
@@ -207,6 +211,9 @@ pub fn run_writer(world: &WorldRef, prog: &WProg) -> WRun {
             });
             let w = world.borrow();
             run.marks.last_mut().unwrap().snap = Some((w.data(SHP).to_vec(), w.data(SHX).to_vec()));
+            if retry_ok || retry_panicked {
+                break;
+            }
         }
         if panicked {
             poisoned = true;
